@@ -338,6 +338,29 @@ func c07Case(w *core.W, j int) {
 	}
 }
 
+// c07MustError: texts that contain a lexical error by construction (a closing parenthesis that
+// closes nothing, a parenthesis left open at the end of the input) - whatever record type they
+// stand in: the parser must report an error, not hand out records and fall silent.
+func c07MustError(w *core.W, text, kind string) {
+	w.Eval(1)
+	w.Count("must_error_texts", 1)
+	wit := map[string]any{"zone_text": cutBig(text), "kind": kind}
+	records := 0
+	var err error
+	if w.Guard("ZoneParser", wit, func() {
+		zp := dns.NewZoneParser(strings.NewReader(text), "", "zone.db")
+		for _, ok := zp.Next(); ok; _, ok = zp.Next() {
+			records++
+		}
+		err = zp.Err()
+	}) {
+		return
+	}
+	if err == nil {
+		w.Violation("C07/syntax-error-not-reported/"+kind, fmt.Sprintf("the text contains an unbalanced parenthesis but parsing ended without an error after %d record(s)", records), wit)
+	}
+}
+
 // c07Prefixes: for one record type, the text of a plain record of that type cut off after every
 // octet (with and without a final newline) - the RDATA ends early at the end of the input - and
 // continued with surplus tokens; plus RDATA given to the types that have no presentation format.
@@ -381,6 +404,16 @@ func c07Prefixes(w *core.W, j int) {
 			c07Parse(w, line[:p]+" \\", cfg, kind, nil)
 		}
 	}
+	next := "\nnext.example. 60 IN A 192.0.2.1\n"
+	for _, bad := range []string{line + " )", line + " ) ; c", line + " )" + next, line + " ( " + next, "( ) ) " + line + next} {
+		c07MustError(w, bad, "unbalanced-parenthesis/"+l.Name)
+	}
+	// after every blank of the line
+	for p := 0; p < len(line); p++ {
+		if line[p] == ' ' || line[p] == '\t' {
+			c07MustError(w, line[:p]+" ) "+line[p:]+next, "unbalanced-parenthesis/"+l.Name)
+		}
+	}
 	for _, extra := range []string{" extra", " \"extra\"", " 1", " ( extra )", " \\# 1 00", " ;c\n extra"} {
 		c07Parse(w, line+extra, cfg, "surplus/"+l.Name, nil)
 		c07Parse(w, line+extra+"\nnext.example. 60 IN A 192.0.2.1\n", cfg, "surplus/"+l.Name, nil)
@@ -413,6 +446,9 @@ func c07Crafted(w *core.W, j int) {
 		{"generate-huge-step", "$ORIGIN example.\n$GENERATE 1-9223372036854775807/9223372036854775807 h$ 300 IN A 127.0.0.1\n"},
 		{"generate-negative", "$ORIGIN example.\n$GENERATE -5-5 h$ 300 IN A 127.0.0.1\n"},
 		{"generate-bad-modifier", "$ORIGIN example.\n$GENERATE 0-3 h${0,300,d} 300 IN A 127.0.0.1\n$GENERATE 0-3 h${ 300 IN A 127.0.0.1\n"},
+		{"generate-wide-modifier", "$ORIGIN example.\n$GENERATE 0-3 host 300 IN TXT ${0,3000000,d}\n"},
+		{"generate-wide-modifier", "$ORIGIN example.\n$GENERATE 0-3 host 300 IN TXT ${0,256}\n$GENERATE 0-3 host 300 IN TXT ${0,65535,x}\n"},
+		{"generate-wide-modifier", "$ORIGIN example.\n$GENERATE 0-9 host 300 IN TXT \"${0,255,d}${1,255,o}${2,255,X}\" ${0,30000000,d}\n"},
 		{"generate-offset-overflow", "$ORIGIN example.\n$GENERATE 0-3 h${9223372036854775807,1,d} 300 IN A 127.0.0.1\n"},
 		{"nested-generate", "$ORIGIN example.\n$GENERATE 0-2 $$GENERATE 0-2 h$$ 300 IN A 127.0.0.1\n"},
 		{"nested-generate", "$ORIGIN example.\n$GENERATE 0-1 \\$GENERATE 0-1 x 300 IN A 127.0.0.1\n"},
@@ -504,10 +540,10 @@ func init() {
 	core.Register(&core.Monitor{
 		ID: "C07", Level: "exploration", Plan: plan, Run: run, Terminates: true, CaseTimeout: 240e9, MaxParallel: 16,
 		Rule: "mutations (byte/token deletion, duplication, transposition, hostile octets, directive soup, truncation) of zone renderings with $GENERATE/$INCLUDE, token soup, 36 crafted texts (100 KiB tokens/comments/strings, unterminated quote/parenthesis/escape, NUL, CRLF, $GENERATE at and over 65536 steps, int64-overflowing ranges, nested $GENERATE, bad modifiers, $INCLUDE with absolute/relative/.. paths, self- and mutually including files, an included file whose reads fail), " +
-			"every octet-prefix of a plain record line of every type (RDATA ending early at end of input, open parenthesis/quote/backslash after each token), surplus tokens after complete RDATA, arbitrary tokens after every type mnemonic incl. types without presentation format; each with a read error injected at a chosen offset, x {includes off/on} x {no FS / recording FS} x 5 origins x default TTL; oracle: no panic/hang, nothing returned and Err() stable after parsing stops, errors carry line:col (and the file), <= 65536 records per $GENERATE, nested $GENERATE rejected, " +
+			"every octet-prefix of a plain record line of every type (RDATA ending early at end of input, open parenthesis/quote/backslash after each token), surplus tokens after complete RDATA, a closing parenthesis that closes nothing after every blank of the line and an unclosed one at its end (must be reported, whatever the type), arbitrary tokens after every type mnemonic incl. types without presentation format; each with a read error injected at a chosen offset, x {includes off/on} x {no FS / recording FS} x 5 origins x default TTL; oracle: no panic/hang, nothing returned and Err() stable after parsing stops, errors carry line:col (and the file), <= 65536 records per $GENERATE, nested $GENERATE rejected, " +
 			"zero Open calls on the recording FS and zero openat(2) under the canary directory in the strace log of the worker while includes are disabled, <= 8 opens for self-including files, TotalAlloc delta within 4 KiB/octet + per-record allowance; non-trivial = distinct accepted text",
 		Assumptions: []string{"the worker runs under strace -f -e trace=open,openat (seccomp-bpf); the canary directory does not exist"},
-		MinObserved: []string{"texts", "errors", "accepted", "self_include_cases", "broken_include_cases", "strace_openat_lines"},
+		MinObserved: []string{"texts", "errors", "accepted", "self_include_cases", "broken_include_cases", "strace_openat_lines", "must_error_texts"},
 		Wrapper: func(argv []string, scratch string, chunk int) []string {
 			log := filepath.Join(scratch, fmt.Sprintf("strace-%d.log", chunk))
 			os.Remove(log)
